@@ -67,6 +67,12 @@ type c09World struct {
 	closed   bool
 	retained []c09Handle
 	nextID   uint64
+	// a NeedsTable call of the harness parked between its two reads (hook dkv.needstable.between)
+	askArmed  bool
+	askDB     *dkv.DB
+	askParked chan struct{}
+	askResume chan struct{}
+	askAnswer chan bool
 }
 
 func (w *c09World) canon(uri string) string { return strings.TrimPrefix(uri, w.prefix) }
@@ -161,6 +167,19 @@ func (w *c09World) instOf(db any) *c09Inst {
 
 func (w *c09World) hook(label string, payload []any) {
 	switch label {
+	case "dkv.needstable.between":
+		w.mu.Lock()
+		park := w.askArmed && len(payload) > 0 && payload[0] == any(w.askDB)
+		var parked, resume chan struct{}
+		if park {
+			w.askArmed = false
+			parked, resume = w.askParked, w.askResume
+		}
+		w.mu.Unlock()
+		if park {
+			close(parked)
+			<-resume
+		}
 	case "sst.table.cleanup":
 		if len(payload) < 2 {
 			return
@@ -230,8 +249,10 @@ type c09DocTable struct {
 	URI      string
 }
 type c09DocCkpt struct {
-	ID     uint64          `json:"id"`
-	WALs   []struct{ URI string `json:"uri"` } `json:"wals"`
+	ID   uint64 `json:"id"`
+	WALs []struct {
+		URI string `json:"uri"`
+	} `json:"wals"`
 	Levels [][]c09DocTable `json:"levels"`
 }
 type c09Doc struct {
@@ -398,6 +419,10 @@ func runC09(c lib.Case) []string {
 	defer func() {
 		runtime.KeepAlive(w.grave)
 		w.mu.Lock()
+		if w.askResume != nil {
+			close(w.askResume)
+			w.askResume, w.askDB = nil, nil
+		}
 		w.closed = true
 		// the cleanup argument of every loaded table reaches this world through the ownership wrapper: cut the
 		// world's references to the instances, or their tables would stay reachable from their own cleanups forever
@@ -441,19 +466,52 @@ func runC09(c lib.Case) []string {
 			}
 			var handles []recovery.CheckpointHandle
 			from := c09Field(f, "from")
-			var fromW int
+			var fromWs []int
 			var fromID uint64
 			if from != "none" && from != "" {
 				p := strings.SplitN(from, ":", 2)
-				fromW, _ = strconv.Atoi(p[0])
+				if len(p) != 2 {
+					out = append(out, "bad-op")
+					continue
+				}
 				fromID, _ = strconv.ParseUint(p[1], 10, 64)
-				if _, _, _, ok := w.docEntry(fromW, fromID); !ok {
+				okAll := true
+				for _, ws := range strings.Split(p[0], "+") {
+					wi, _ := strconv.Atoi(ws)
+					fromWs = append(fromWs, wi)
+					if _, _, _, ok := w.docEntry(wi, fromID); !ok {
+						okAll = false
+					}
+					handles = append(handles, recovery.CheckpointHandle{CheckpointID: fromID, URI: w.prefix + fmt.Sprintf("i%d/checkpoints", wi)})
+				}
+				if !okAll {
 					out = append(out, "no-such-checkpoint")
 					continue
 				}
-				handles = append(handles, recovery.CheckpointHandle{CheckpointID: fromID, URI: w.prefix + fmt.Sprintf("i%d/checkpoints", fromW)})
+				// restoring from a checkpoint that already lost a file panics in a background compaction of the code
+				// under test (or fails the WAL replay): such a restore is not attempted
+				lost := false
+				for _, wi := range fromWs {
+					_, uris, wals, _ := w.docEntry(wi, fromID)
+					for _, u := range append(uris, wals...) {
+						if !w.root.Exists(u) {
+							lost = true
+						}
+					}
+				}
+				if lost {
+					out = append(out, "files-missing")
+					continue
+				}
 			}
 			x := &c09Inst{idx: idx, gen: gen, lo: lo, hi: hi, alive: true, mode: "truthful", known: map[string]bool{}}
+			var preTabs []string // the hook must know the loaded tables before the replay's first flush commits
+			for _, wi := range fromWs {
+				ts, _, _, _ := w.docEntry(wi, fromID)
+				for _, t := range ts {
+					preTabs = append(preTabs, w.prefix+t[:strings.Index(t, ":")])
+				}
+			}
 			res := c09Guard(func() string {
 				own := &c09Ownership{w: w, idx: idx, inner: operator.VerifNewOperatorPartitionWithNeighbors(partitioning.KeyGroupRange{Start: lo, End: hi}, ranges, ops)}
 				db := dkv.New(dkv.DBOptions{FileSystem: w.root.WithWorkingDir(fmt.Sprintf("i%d", idx)), MemTableSize: uint64(mem), TargetFileSize: 96,
@@ -461,27 +519,55 @@ func runC09(c lib.Case) []string {
 				comp := db.VerifCompactor()
 				comp.SmallestLevelSize = 1
 				comp.MaxSizeAmplificationPercent = 25
+				for _, t := range preTabs {
+					x.known[t] = true
+				}
+				w.mu.Lock()
+				x.db = db
+				w.insts = append(w.insts, x)
+				w.mu.Unlock()
 				if err := db.Start(handles); err != nil {
 					return "err " + strings.ReplaceAll(err.Error(), " ", "_")
 				}
-				x.db = db
+				done := make(chan error, 1)
+				go func() { done <- db.WaitOnTasks() }()
+				select {
+				case err := <-done:
+					if err != nil {
+						return "err " + strings.ReplaceAll(err.Error(), " ", "_")
+					}
+				case <-time.After(10 * time.Second):
+					return "timeout"
+				}
 				return ""
 			})
 			if res != "" {
+				w.mu.Lock()
+				x.alive, x.db = false, nil
+				if n := len(w.insts); n > 0 && w.insts[n-1] == x {
+					w.insts = w.insts[:n-1]
+				}
+				w.mu.Unlock()
 				out = append(out, res)
 				continue
 			}
+			// what was loaded is what the documents say (the WAL replay may already flush and compact in the background)
 			var tabs []string
-			for _, l := range x.db.VerifLevels().VerifLayout() {
-				for _, ti := range l {
-					x.known[ti.URI] = true
-					tabs = append(tabs, w.tblString(ti.URI, ti.StartKey, ti.EndKey))
-				}
+			for _, wi := range fromWs {
+				ts, _, _, _ := w.docEntry(wi, fromID)
+				tabs = append(tabs, ts...)
+			}
+			for _, t := range tabs {
+				x.known[w.prefix+t[:strings.Index(t, ":")]] = true
 			}
 			sort.Strings(tabs)
 			var wals []string
-			if len(handles) == 1 {
-				_, _, wals, _ = w.docEntry(fromW, fromID)
+			if len(handles) >= 1 {
+				for _, wi := range fromWs {
+					_, _, ws, _ := w.docEntry(wi, fromID)
+					wals = append(wals, ws...)
+				}
+				sort.Strings(wals)
 				x.ckptIDs = []uint64{fromID}
 				// the job abandons newer checkpoints of writers that are gone
 				var keep []c09Handle
@@ -493,9 +579,14 @@ func runC09(c lib.Case) []string {
 				w.retained = keep
 			}
 			w.mu.Lock()
-			w.insts = append(w.insts, x)
+			ev := x.events
+			x.events = nil
 			w.mu.Unlock()
-			out = append(out, fmt.Sprintf("ok %d tables=%s wals=%s", idx, c09Join(tabs), c09Join(wals)))
+			evs := "-"
+			if len(ev) > 0 {
+				evs = strings.Join(ev, ";")
+			}
+			out = append(out, fmt.Sprintf("ok %d tables=%s wals=%s ev=%s", idx, c09Join(tabs), c09Join(wals), evs))
 		case "write": // write <i> <n> <seed> <klo>-<khi>
 			x := inst(f[1])
 			if len(f) < 5 {
@@ -744,6 +835,88 @@ func runC09(c lib.Case) []string {
 				res = "blocked"
 			}
 			out = append(out, fmt.Sprintf("%s cleanups=%s deleted=%s", res, c09Join(cl), c09Join(c09Minus(before, w.listFiles()))))
+		case "asksplit": // asksplit <i> new|old|dead : start DB.NeedsTable and hold it between its two reads
+			x := inst(f[1])
+			if len(f) < 3 {
+				out = append(out, "bad-op")
+				continue
+			}
+			if x == nil || !x.alive || x.db == nil {
+				out = append(out, "not-alive")
+				continue
+			}
+			if w.askResume != nil {
+				out = append(out, "ask-pending")
+				continue
+			}
+			live := map[string]bool{}
+			var liveL []string
+			for _, l := range x.db.VerifLevels().VerifLayout() {
+				for _, ti := range l {
+					live[ti.URI] = true
+					liveL = append(liveL, ti.URI)
+				}
+			}
+			sort.Strings(liveL)
+			uri := ""
+			switch f[2] {
+			case "new":
+				if len(liveL) > 0 {
+					uri = liveL[len(liveL)-1]
+				}
+			case "old":
+				if len(liveL) > 0 {
+					uri = liveL[0]
+				}
+			default:
+				var dead []string
+				for u := range x.known {
+					if !live[u] {
+						dead = append(dead, u)
+					}
+				}
+				sort.Strings(dead)
+				if len(dead) > 0 {
+					uri = dead[len(dead)-1]
+				}
+			}
+			if uri == "" {
+				out = append(out, "none")
+				continue
+			}
+			w.mu.Lock()
+			w.askArmed, w.askDB = true, x.db
+			w.askParked, w.askResume, w.askAnswer = make(chan struct{}), make(chan struct{}), make(chan bool, 1)
+			parked, answer, db := w.askParked, w.askAnswer, x.db
+			w.mu.Unlock()
+			go func() { answer <- db.NeedsTable(uri) }()
+			select {
+			case a := <-answer:
+				w.mu.Lock()
+				w.askArmed, w.askDB, w.askResume = false, nil, nil
+				w.mu.Unlock()
+				out = append(out, fmt.Sprintf("done %s %s", w.canon(uri), map[bool]string{true: "yes", false: "no"}[a]))
+			case <-parked:
+				out = append(out, "parked "+w.canon(uri))
+			case <-time.After(5 * time.Second):
+				out = append(out, "timeout")
+			}
+		case "askresume":
+			if w.askResume == nil {
+				out = append(out, "no-ask")
+				continue
+			}
+			w.mu.Lock()
+			resume, answer := w.askResume, w.askAnswer
+			w.askResume, w.askDB = nil, nil
+			w.mu.Unlock()
+			close(resume)
+			select {
+			case a := <-answer:
+				out = append(out, map[bool]string{true: "yes", false: "no"}[a])
+			case <-time.After(5 * time.Second):
+				out = append(out, "timeout")
+			}
 		case "files":
 			out = append(out, "ok "+c09Join(w.listFiles()))
 		case "missing":
@@ -965,6 +1138,20 @@ func (g *c09Gen) churn(steps int, gen int) {
 			if len(al) > 1 {
 				g.emit("mode %d %s", i, lib.Pick(g.r, []string{"truthful", "err", "hang", "truthful"}))
 			}
+		case v < 95:
+			// a neighbour's NeedsTable call overlapping checkpoints, compactions and retention updates
+			g.emit("asksplit %d %s", i, lib.Pick(g.r, []string{"new", "new", "old", "dead"}))
+			for k := g.r.Range(1, 3); k > 0; k-- {
+				switch g.r.Intn(4) {
+				case 0:
+					g.ckpt(i)
+				case 1:
+					g.retain(i)
+				default:
+					g.write(i)
+				}
+			}
+			g.emit("askresume")
 		default:
 			g.observe()
 		}
@@ -1061,24 +1248,27 @@ func genC09(r *lib.Rng, tier string) lib.Case {
 				g.emit("crash %d", i)
 			}
 		}
-		// same parallelism, or rescale out from a single writer
-		m := len(writers)
-		if len(writers) == 1 {
-			m = lib.Pick(r, []int{1, 2, 2, 3, 4})
+		// the next assembly: any parallelism; every new instance restores from the checkpoints of the writers whose
+		// key-group range overlaps its own (scale-out shares tables, scale-in merges documents)
+		m := lib.Pick(r, []int{1, 1, 2, 2, 3, 4})
+		if len(writers) > 1 && r.Chance(1, 2) {
+			m = len(writers)
 		}
 		nrs := c09Ranges(m)
-		if len(writers) > 1 {
+		if m == len(writers) && len(writers) > 1 {
 			nrs = nil
 			for _, wi := range writers {
 				nrs = append(nrs, [2]int{g.insts[wi].lo, g.insts[wi].hi})
 			}
 		}
 		for k, rg := range nrs {
-			wi := writers[0]
-			if len(writers) > 1 {
-				wi = writers[k]
+			var src []string
+			for _, wi := range writers {
+				if g.insts[wi].lo < rg[1] && rg[0] < g.insts[wi].hi {
+					src = append(src, strconv.Itoa(wi))
+				}
 			}
-			g.open(rg[0], rg[1], gen+1, g.nbrsOf(nrs, k), fmt.Sprintf("%d:%d", wi, id), id)
+			g.open(rg[0], rg[1], gen+1, g.nbrsOf(nrs, k), fmt.Sprintf("%s:%d", strings.Join(src, "+"), id), id)
 			if r.Chance(1, 3) {
 				g.observe()
 			}
@@ -1110,11 +1300,29 @@ func c09Fixed() []lib.Case {
 		{Header: "M C09 mem=120 l0=1", Tags: []string{"regress-D24"}, Ops: []string{
 			"open 0-8 gen=0 nbrs=- from=none", "write 0 12 7 0-7", "ckpt 0 1", "crash 0",
 			"open 0-4 gen=1 nbrs=4-8 from=0:1", "open 4-8 gen=1 nbrs=0-4 from=0:1",
-			"ckpt 1 2", "ckpt 2 2", "jobdrop 1", "retain 2 2", "write 1 14 8 0-3", "write 1 14 9 0-3", "retain 1 2", "gc", "files", "missing"}},
+			"write 1 14 8 0-3", "write 1 14 9 0-3", "ckpt 1 2", "ckpt 2 2", "jobdrop 1", "retain 2 2", "retain 1 2", "gc", "files", "missing"}},
 		// D25 (open): in-process redeploy — the released instance's tables are deleted under the restored one
 		{Header: "M C09 mem=120 l0=2", Tags: []string{"witness-D25"}, Ops: []string{
 			"open 0-8 gen=0 nbrs=- from=none", "write 0 12 7 0-7", "ckpt 0 1", "release 0",
 			"open 0-8 gen=1 nbrs=- from=0:1", "gc", "files", "missing"}},
+		// the neighbour's answer must come from every checkpoint in its list: (b) its own checkpoint 2 still lists the
+		// shared tables after the restored checkpoint was dropped and a compaction removed them from the live list
+		{Header: "M C09 mem=120 l0=1", Tags: []string{"neighbour-own-checkpoint"}, Ops: []string{
+			"open 0-8 gen=0 nbrs=- from=none", "write 0 12 7 0-7", "ckpt 0 1", "crash 0",
+			"open 0-4 gen=1 nbrs=4-8 from=0:1", "open 4-8 gen=1 nbrs=0-4 from=0:1",
+			"write 1 14 8 0-3", "write 1 14 9 0-3", "ckpt 1 2", "ckpt 2 2", "jobdrop 1", "retain 2 2",
+			"write 2 14 11 4-7", "write 2 14 12 4-7", "retain 1 2", "gc", "files", "missing"}},
+		// (a) the restored checkpoint is still in the neighbour's list (its retention update lags) although it has
+		// compacted the shared tables away before its own checkpoint
+		{Header: "M C09 mem=120 l0=1", Tags: []string{"neighbour-restored-checkpoint"}, Ops: []string{
+			"open 0-8 gen=0 nbrs=- from=none", "write 0 12 7 0-7", "ckpt 0 1", "crash 0",
+			"open 0-4 gen=1 nbrs=4-8 from=0:1", "open 4-8 gen=1 nbrs=0-4 from=0:1",
+			"write 2 14 11 4-7", "write 2 14 12 4-7", "write 1 14 8 0-3", "write 1 14 9 0-3", "ckpt 1 2", "ckpt 2 2",
+			"jobdrop 1", "retain 1 2", "gc", "files", "missing"}},
+		// D46 (repaired): a checkpoint and a compaction between the two reads of NeedsTable
+		{Header: "M C09 mem=120 l0=1", Tags: []string{"regress-D46"}, Ops: []string{
+			"open 0-8 gen=0 nbrs=- from=none", "write 0 12 1 0-7", "ckpt 0 1", "write 0 12 2 0-7", "asksplit 0 new", "ckpt 0 2",
+			"write 0 12 3 0-7", "write 0 12 4 0-7", "askresume", "asksplit 0 dead", "jobdrop 1", "retain 0 2", "askresume", "gc", "missing"}},
 		// plain life of one instance: compaction, checkpoints, retention, snapshot
 		{Header: "M C09 mem=120 l0=1", Tags: []string{"single"}, Ops: []string{
 			"open 0-8 gen=0 nbrs=- from=none", "write 0 12 1 0-7", "snap 0", "ckpt 0 1", "write 0 12 2 0-7", "gc", "files", "ckpt 0 2",
@@ -1126,7 +1334,7 @@ func propC09() *lib.Prop {
 	return &lib.Prop{
 		ID:       "C09",
 		Corr:     "Model/Files.lean transition system ↔ real dkv.DB instances (table cleanups under forced GC, CheckpointList retention, OperatorPartition.ExclusivelyOwnsTable with scripted/real neighbours)",
-		Rule:     "trace validation: generated lives of 1–4 dkv instances over up to 4 assembly generations (writes with real flush/compaction change sets, checkpoints, job retention, snapshots, crashes, in-process releases, rescale-out from one writer, neighbours that answer truthfully / fail / time out); at every gc point the set of cleanups that ran, their decisions and the files that disappeared are compared with the model, and the needed-set (job-retained document entries + live level lists) is evaluated on the real file store; non-trivial = some table cleanup ran in the trace",
+		Rule:     "trace validation: generated lives of 1–4 dkv instances over up to 4 assembly generations (writes with real flush/compaction change sets, checkpoints, job retention, snapshots, crashes, in-process releases, rescale-out sharing tables and scale-in merging several documents, neighbours that answer truthfully / fail / time out, NeedsTable calls held between their two reads while checkpoints, compactions and retention updates commit); at every gc point the set of cleanups that ran, their decisions and the files that disappeared are compared with the model, and the needed-set (job-retained document entries + live level lists) is evaluated on the real file store; non-trivial = some table cleanup ran in the trace",
 		FeedImpl: true,
 		NumCases: func(tier string) int {
 			if tier == "thorough" {
@@ -1146,7 +1354,7 @@ func propC09() *lib.Prop {
 			return false
 		},
 		MObs: func(op string) bool {
-			return strings.HasPrefix(op, "write ") || strings.HasPrefix(op, "open ") || strings.HasPrefix(op, "ckpt ")
+			return strings.HasPrefix(op, "write ") || strings.HasPrefix(op, "open ") || strings.HasPrefix(op, "ckpt ") || strings.HasPrefix(op, "asksplit ")
 		},
 	}
 }
